@@ -33,7 +33,7 @@ Rejection(e) ==
     ELSE IF ~\E f \in F : \E m \in 1..Len(f[1]) : f[1][m] = e.cls THEN "C12.WrongError"
     ELSE IF ~\E f \in F : MatchesFault(e, f) THEN "C12.WrongOffender"
     ELSE IF nbegin > 0 THEN "C12.ExecBeforeReject"
-    ELSE IF ~AtOk(e) THEN "C11.ErrorLine"
+    ELSE IF ~T.nolines /\ ~AtOk(e) THEN "C11.ErrorLine"      \* (programs assembled through the API carry no argument lines)
     ELSE "ok"
 
 \* execute() of an accepted command receives exactly the arguments that were written (extra ones included where the command allows them)
